@@ -21,12 +21,13 @@ Definition tstamp_eqb (a b : tstamp) : bool :=
   | TOwn n, TOwn m => n =? m
   | _, _ => false
   end.
+Definition rcode_eqb : rcode -> rcode -> bool := pair_eqb (option_eqb Nat.eqb) (option_eqb Nat.eqb).
 Definition has_ts (t : tstamp) : bool := match t with TNo => false | _ => true end.
 Definition qitem_eqb (a b : qitem) : bool :=
   match a, b with
   | QToken x, QToken y | QStart x, QStart y | QStop x, QStop y => x =? y
   | QStatus w i s o t, QStatus w' i' s' o' t' =>
-      (w =? w') && (i =? i') && (s =? s') && option_eqb Nat.eqb o o' && tstamp_eqb t t'
+      (w =? w') && (i =? i') && (s =? s') && rcode_eqb o o' && tstamp_eqb t t'
   | _, _ => false
   end.
 Definition cev_eqb (a b : cev) : bool :=
@@ -36,7 +37,7 @@ Definition cev_eqb (a b : cev) : bool :=
   | CPut q, CPut r | CGet q, CGet r => qitem_eqb q r
   | CGetIntr, CGetIntr => true
   | CStatus w i s o t r, CStatus w' i' s' o' t' r' =>
-      (w =? w') && (i =? i') && (s =? s') && option_eqb Nat.eqb o o' && tstamp_eqb t t' && Bool.eqb r r'
+      (w =? w') && (i =? i') && (s =? s') && rcode_eqb o o' && tstamp_eqb t t' && Bool.eqb r r'
   | _, _ => false
   end.
 
@@ -48,7 +49,7 @@ Definition joins (tr : list (tid * cev)) : list nat :=
 Definition has_intr (tr : list (tid * cev)) : bool :=
   existsb (fun e => match snd e with CGetIntr => true | _ => false end) tr.
 (* what main passed to the caller's stream result for worker w: (id, status, own route, timestamp, raised) *)
-Definition delivered (w : nat) (tr : list (tid * cev)) : list (nat * nat * option nat * tstamp * bool) :=
+Definition delivered (w : nat) (tr : list (tid * cev)) : list (nat * nat * rcode * tstamp * bool) :=
   flat_map (fun e => match snd e with
                      | CStatus w' i s o t r => if w' =? w then [(i, s, o, t, r)] else []
                      | _ => []
@@ -107,20 +108,30 @@ Definition common_okb (n : nat) (mt : option nat) (o : obs) : bool :=
       else match o_stops o with [] => true | _ => false end).
 
 (* ---------- stream: delivery ---------- *)
-(* an event: test id, status, the worker's own route code, timestamp *)
-Fixpoint ev_of (l : list qitem) : list (nat * nat * option nat * tstamp) :=
+(* an event: test id, status, route code (the sub-suite's, the event's own), timestamp *)
+Fixpoint ev_of (l : list qitem) : list (nat * nat * rcode * tstamp) :=
   match l with
   | [] => []
   | QStatus _ i s o t :: r => (i, s, o, t) :: ev_of r
   | _ :: r => ev_of r
   end.
-Definition ev3_eqb (a b : nat * nat * option nat * tstamp) : bool :=
+Definition ev3_eqb (a b : nat * nat * rcode * tstamp) : bool :=
   (fst (fst (fst a)) =? fst (fst (fst b))) && (snd (fst (fst a)) =? snd (fst (fst b)))
-  && option_eqb Nat.eqb (snd (fst a)) (snd (fst b)) && tstamp_eqb (snd a) (snd b).
+  && rcode_eqb (snd (fst a)) (snd (fst b)) && tstamp_eqb (snd a) (snd b).
 
-Definition stream_worker_okb (base raised : bool) (tr : list (tid * cev)) (w : nat) (s : list sitem) : bool :=
+(* what the statement expects to arrive from a sub-suite with route code rt: every event it emits, in its
+   order, under rt, with its own timestamp or an assigned one; then - if its run() raises an Exception - the
+   broken-runner test *)
+Fixpoint sent_events (rt : option nat) (base : bool) (s : list sitem) : list (nat * nat * rcode * tstamp) :=
+  match s with
+  | [] => []
+  | SEv id st own a :: r => (id, st, (rt, own), stamp a) :: sent_events rt base r
+  | SRaise :: _ => if base then [] else [(br_id, st_inprogress, (rt, None), TNow); (br_id, st_fail, (rt, None), TNow)]
+  end.
+
+Definition stream_worker_okb (routes : list (option nat)) (base raised : bool) (tr : list (tid * cev)) (w : nat) (s : list sitem) : bool :=
   let d := delivered w tr in
-  let exp := ev_of (emits w base s) in
+  let exp := sent_events (nth w routes None) base s in
   forallb (fun x => has_ts (snd (fst x))) d                              (* every event carries a timestamp *)
   && is_prefix ev3_eqb (map (fun x => fst x) d) exp   (* exactly once, in that worker's order, its route, its own timestamp if it has one *)
   && (raised || (length d =? length exp)).                               (* all of them unless run() was aborted *)
@@ -183,7 +194,7 @@ Definition spec_okb (i : input) (o : obs) : bool :=
       let n := length (si_suites si) in
       let k := started n (si_mt_raise si) in
       common_okb n (si_mt_raise si) o
-      && forallb_idx (stream_worker_okb (si_base si) (o_raised o) (o_trace o)) 0 (firstn k (si_suites si))
+      && forallb_idx (stream_worker_okb (si_routes si) (si_base si) (o_raised o) (o_trace o)) 0 (firstn k (si_suites si))
   end.
 
 (* ---------- the readable statement ---------- *)
@@ -209,13 +220,14 @@ Definition Common (n : nat) (mt : option nat) (o : obs) : Prop :=
   /\ (o_raised o = true ->                                                 (* every started, unreaped worker is told to stop *)
       o_stops o = firstn (stops_expected (main_stops (o_trace o)) (length unreaped)) unreaped).
 
-(* stream: what main passed on for worker w is, event for event, what w emitted (its own route code
-   under w's), each with a timestamp - the worker's own where it supplied one, otherwise (keyword left out
+(* stream: what main passed on from worker w (w = the w-th sub-suite's StreamToQueue; several sub-suites
+   may have been given the SAME route code, so a route code does not identify a worker) is, event for
+   event, what w emitted (its own route code under the route code of w's sub-suite), each with a timestamp - the worker's own where it supplied one, otherwise (keyword left out
    or timestamp=None passed explicitly) one assigned on the way (TNow; its value is not compared); all of
    it when run() returned normally *)
-Definition StreamWorker (base raised : bool) (tr : list (tid * cev)) (w : nat) (s : list sitem) : Prop :=
+Definition StreamWorker (routes : list (option nat)) (base raised : bool) (tr : list (tid * cev)) (w : nat) (s : list sitem) : Prop :=
   let d := delivered w tr in
-  let exp := ev_of (emits w base s) in
+  let exp := sent_events (nth w routes None) base s in
   (forall x, In x d -> has_ts (snd (fst x)) = true)
   /\ (exists rest, map (fun x => fst x) d ++ rest = exp)
   /\ (raised = false -> map (fun x => fst x) d = exp).
@@ -254,7 +266,7 @@ Definition Spec (i : input) (o : obs) : Prop :=
       let k := started n (si_mt_raise si) in
       Common n (si_mt_raise si) o
       /\ (forall w s, w < k -> nth_error (si_suites si) w = Some s ->
-            StreamWorker (si_base si) (o_raised o) (o_trace o) w s)
+            StreamWorker (si_routes si) (si_base si) (o_raised o) (o_trace o) w s)
   end.
 
 Definition findings (i : input) : list nat := [].
